@@ -51,6 +51,8 @@ def domain_probes(F, rep):
         ("to_bigint", "GenericToBigint", "Int", -(2**31), I32, "BigInt"), ("to_bigint", "GenericToBigint", "Byte", 255, U8, "BigInt"),
         ("abs", "GenericAbs", "Int", -(2**31), I32, None), ("abs", "GenericAbs", "Int", -(2**31) + 1, I32, "Int"),
         ("abs", "GenericAbs", "BigInt", -(2**127), I128, None), ("abs", "GenericAbs", "BigInt", -(2**127) + 1, I128, "BigInt"),
+        ("to_ascii", "ByteToAscii", "Byte", 65, U8, "Str"), ("to_ascii", "ByteToAscii", "Byte", 127, U8, "Str"),
+        ("to_ascii", "ByteToAscii", "Byte", 128, U8, None), ("to_ascii", "ByteToAscii", "Byte", 200, U8, None),
     ]
     n = 0
     for meth, variant, kind, val, ty, want in rows:
